@@ -7,6 +7,7 @@ require (
 	github.com/kelindar/column v0.0.0
 	github.com/kelindar/iostream v1.3.0
 	github.com/klauspost/compress v1.16.6
+	github.com/zeebo/xxh3 v1.0.2
 )
 
 require (
@@ -15,7 +16,6 @@ require (
 	github.com/kelindar/smutex v1.0.0 // indirect
 	github.com/klauspost/cpuid/v2 v2.2.5 // indirect
 	github.com/tidwall/btree v1.6.0 // indirect
-	github.com/zeebo/xxh3 v1.0.2 // indirect
 )
 
 replace github.com/kelindar/column => /repo
